@@ -126,6 +126,14 @@ CLAIMED = {
         "format-then-parse of doubles, and a metamorphic independence check (a row's result is bit-identical alone, in the batch and in permuted batches).",
         "Holds on the explored region only. Python's int(), float() and repr() are the reference. One open finding (format-then-parse off by <= 8 ulp) is excluded by a narrow bucket; a larger error is still a violation.",
         "boundary enumeration + Hypothesis batches, reference oracle (Python int/float/repr) and metamorphic batch-independence oracle"),
+    "C19": (
+        "Model-based generated histories: Hypothesis builds tables of 12 entry types from bionumpy.datatypes and 3 dynamically made classes "
+        "(all column kinds, nested table, numeric columns in varying valid dtypes) and a program of indexing, concatenation (including operands "
+        "whose numbers need a wider dtype), sort_by, iteration, replace, add_fields, tolist, todict, pandas and entry-tuple round trips and "
+        "invalid constructions; after every step the table's rows must equal a list-of-tuples model, all columns must have equal length, and "
+        "every operand must still equal its snapshot.",
+        "Holds on the explored region only. sort_by is checked as an ordered permutation; pandas round trips only for column types pandas can carry.",
+        "Hypothesis-generated operation programs interpreted against a list-of-tuples reference model"),
 }
 
 PENDING_REASON = "check not built yet in this commit (work in progress, see DESIGN.md section 9); the technique applies"
